@@ -6,6 +6,7 @@ import (
 	"fmt"
 	"io"
 	"os"
+	"time"
 
 	"github.com/ipfs/go-cid"
 )
@@ -87,11 +88,41 @@ func errClass(err error) string {
 	if _, ok := err.(panicErr); ok {
 		return "panic"
 	}
+	if _, ok := err.(hangErr); ok {
+		return "hang"
+	}
 	if err == io.EOF {
 		return "eof"
 	}
 	return "err"
 }
+
+// hangErr: the call did not return within its (generous) time limit.
+type hangErr struct{ d time.Duration }
+
+func (h hangErr) Error() string { return fmt.Sprintf("call did not return within %v", h.d) }
+
+// guardTimed runs f like guard does, but gives up waiting after d: a library call that blocks for ever (for
+// example on opening a fifo) is an outcome to report, not a reason for the harness to hang.
+//
+// Once one call of this process has hung, later calls are given one second only (a change that makes one case
+// hang usually makes hundreds hang; the report needs one).
+func guardTimed(d time.Duration, f func()) error {
+	if hangSeen && d > time.Second {
+		d = time.Second
+	}
+	ch := make(chan error, 1)
+	go func() { ch <- guard(f) }()
+	select {
+	case err := <-ch:
+		return err
+	case <-time.After(d):
+		hangSeen = true
+		return hangErr{d}
+	}
+}
+
+var hangSeen bool
 
 // caseString renders a case descriptor as a JSON *string* field: the trace
 // specifications never look inside it, the driver uses it to re-execute.
